@@ -8,6 +8,7 @@ import XModel.ManagerC01b
 import XModel.ManagerFnHist
 import XModel.ManagerKnob
 import XModel.ManagerMixed
+import XModel.ManagerKnobShared
 /-!
 # C01 — expression-defined locations always equal their definition on current data
 
@@ -35,9 +36,19 @@ In-place operators count as the assignment they reduce to (`inplaceCall`).  Func
 `C01_histories_function_tasks`; linear knobs (integer values) by `C01_knob_*` in their own scene and, mixed with
 expression / function tasks in one triggered set, by `C01_mixed_*` (plain int assignments on a static graph).
 
-Limits of the knob / mixed theorems, none of which carries `_partial` in its name: leaf targets of different tasks must be
-pairwise incomparable, so two knobs acting on the SAME element — a normal use of knobs — are outside although the model
-(and the code) compute the right value; `KnobDecl` wants the whole owner chain of the source among the task's dependencies,
+Knobs SHARING targets — several knobs acting on the SAME element, the normal use of knobs, and one knob listing a target
+twice — are covered by `C01_knobs_sharing_targets*` (`XModel/ManagerKnobShared.lean`): for a family of knobs on integer data
+(distinct ids, no knob target is a knob source; targets may overlap freely) every target `t` holds
+`base t + Σ_k w_{k,t} * prev_k`, this is kept by running ANY knob of the family, and after any series of completed assignments
+to sources `t` holds `base t + Σ_k w_{k,t} * (current value of source_k)`; completion is a conclusion.  Scope of those
+theorems: the triggered tasks of each assignment are ALL knobs of the family, integer values, no injected fault.
+
+Limits of the knob / mixed theorems, none of which carries `_partial` in its name: in `C01_knob_*` (single-knob scene) and
+`C01_mixed_*` leaf targets of different tasks must be pairwise incomparable, so a triggered set that MIXES knobs with
+expression / function tasks AND has two knobs on one element is still outside (shared targets are covered only for
+knob-only triggered sets, above); non-int values (NaN, containers) in sources or targets of knobs are outside everywhere;
+after an injected fault the knob clauses are FALSE, not merely unproved (recovery fails for knobs, C18,
+`XModel/KnobFaultWitness.lean`); `KnobDecl` wants the whole owner chain of the source among the task's dependencies,
 which holds for knobs on members of a top-level container only; the mixed invariant `ConsistentM` has no establishing
 theorem along `register` / `setExpr` (`C01_knob_register` gives it for the new knob only).  Not covered by any theorem
 (correspondence and oracles only): `load` inside a C01 history, values other than ints and NaN (the model's value domain),
@@ -326,5 +337,97 @@ theorem C01_mixed_decided :
         Manager.consistentMB B s = true →
           Manager.mixedRunB sched s as = true → Manager.ConsistentM B (Manager.mixedAssignAll sched s as) :=
   @Manager.C01M_decided
+
+
+/-! ### several knobs on the SAME element (XModel/ManagerKnobShared.lean) -/
+
+/-- **knobs sharing targets, any series of assignments**: `F` is a family of linear knobs (`KnobFamily`: distinct ids,
+    canonical sources, canonical non-empty targets, no knob target is a knob source — targets may be shared between knobs
+    and repeated inside one knob, sources need not be distinct) that is settled in `s` for the bases `base` (`SharedAt`:
+    remembered values, sources and targets are ints, every target `t` holds `base t + Σ_k wAt k t * prev_k`, every knob
+    remembers the value its source holds); no fault is armed; every assignment `p := v` of the series is a `SharedCall` (`p` a
+    non-empty plain location that is the source of a knob of `F`; the scheduled triggered tasks — whatever the scheduler
+    returned — are knobs of `F` and comprise every knob on `p`; others may run too and find `Δ = 0`).  Then EVERY call
+    completes, the family is settled again with the SAME bases, every source holds the value last assigned to it, and
+    every target `t` holds `base t + Σ_{k ∈ F} wAt k t * (last value of source_k)`, where `wAt k t` is the sum of `k`'s
+    weights at the positions where `t` is listed — "each target holds what the tasks prescribe".
+    STILL OUTSIDE: a triggered set mixing knobs with expression / function tasks AND sharing targets; non-int values;
+    injected faults (recovery is false for knobs, see C18). -/
+theorem C01_knobs_sharing_targets (sched : Sched) {F : List MTask} {base : Path → Int} (hF : KnobFamily F)
+    (as : List (Path × Int)) (s : MState) (hf : s.faultIn = none) (hat : SharedAt F base s)
+    (hcalls : ∀ a ∈ as, SharedCall sched F s a.1) :
+    allComplete sched s as ∧ SharedAt F base (mixedAssignAll sched s as) ∧
+      (mixedAssignAll sched s as).faultIn = none ∧ SameGraph s (mixedAssignAll sched s as) ∧
+      (∀ k ∈ F, srcI (mixedAssignAll sched s as) k = lastVal (knobSrc k) (srcI s k) as) ∧
+      (∀ t ∈ famTargets F, get (mixedAssignAll sched s as).store t =
+        .ok (.int (base t + famSum t (fun k => lastVal (knobSrc k) (srcI s k) as) F))) :=
+  sharedAssignAll sched hF as s hf hat hcalls
+
+/-- **the invariant is kept by running ANY knob of the family** (settled or not, triggered or not): in `SharedInv F base s`
+    (ints; every target `t` holds `base t + Σ_k wAt k t * prev_k`), without an armed fault, `task.run()` of a knob `k ∈ F`
+    completes, the invariant holds again with the same bases, `k` remembers the current value of its source, no other
+    remembered value and no source changes, and an int location `q` moves by exactly `wAt k q * (value(src_k) - prev_k)`.
+    Outside: non-int values, injected faults. -/
+theorem C01_knobs_sharing_targets_one_run {F : List MTask} {base : Path → Int} {s : MState} (hF : KnobFamily F)
+    (hf : s.faultIn = none) (hinv : SharedInv F base s) {k : MTask} (hk : k ∈ F) :
+    ∃ s', runTask s k = (s', none) ∧ SharedInv F base s' ∧ s'.faultIn = none ∧ SameGraph s s' ∧
+      lookPrev s'.prev k.id = .int (srcI s k) ∧
+      (∀ id, id ≠ k.id → lookPrev s'.prev id = lookPrev s.prev id) ∧
+      (∀ k' ∈ F, get s'.store (knobSrc k') = get s.store (knobSrc k')) ∧
+      (∀ q a, canonPath q → get s.store q = .ok (.int a) →
+        get s'.store q = .ok (.int (a + wAt k q * (srcI s k - prevI s k)))) := by
+  obtain ⟨s', h1, h2, h3, h4, h5, h6, h7, h8, _⟩ := runTask_shared hF hf hinv hk
+  exact ⟨s', h1, h2, h3, h4, h5, h6, h7, h8⟩
+
+/-- **one completed assignment to a source**: in a settled family, `set_value(p, v)` on a plain int location `p` that is
+    no target, with the scheduled triggered list `l` (hypothesis `htrig`: any order, repetitions allowed) consisting of
+    knobs of `F` and containing every knob on `p`: the call completes, the family is settled again, the sources hold `v`
+    (those on `p`) or their old values, and every target `t` holds `base t + Σ_k wAt k t * value(source_k)`.
+    Outside: `p` with a definition of its own, mixed triggered sets, non-int values, injected faults. -/
+theorem C01_knobs_sharing_targets_one_assignment (sched : Sched) {F : List MTask} {base : Path → Int} (hF : KnobFamily F)
+    (s : MState) (p : Path) (v : Int) (l : List MTask) (hnodef : lookDef s.defs p = none) (hf : s.faultIn = none)
+    (hat : SharedAt F base s) (hcp : canonPath p) (hne : p ≠ []) (hpint : ∃ x, get s.store p = .ok (.int x))
+    (hpt : p ∉ famTargets F) (htrig : knobTriggered sched s p = .ok l) (hl : ∀ k ∈ l, k ∈ F)
+    (hruns : ∀ k ∈ F, knobSrc k = p → k ∈ l) :
+    ∃ s', setValue sched s p (.int v) = (s', none) ∧ SharedAt F base s' ∧ s'.faultIn = none ∧ SameGraph s s' ∧
+      get s'.store p = .ok (.int v) ∧
+      (∀ k ∈ F, srcI s' k = if knobSrc k = p then v else srcI s k) ∧
+      (∀ t ∈ famTargets F, get s'.store t = .ok (.int (base t + famSum t (srcI s') F))) :=
+  setValue_sharedAt sched hF s p v l hnodef hf hat hcp hne hpint hpt htrig hl hruns
+
+/-- **establishing the invariant**: every integer state is in the invariant for its own bases (`baseOf`: what the target
+    holds minus what the knobs have added), the bases of an invariant are unique on the targets, and `register` of one
+    more knob whose source and targets hold ints keeps a settled family settled (the container tree is not touched). -/
+theorem C01_knobs_sharing_targets_register {F : List MTask} {s : MState} :
+    (IntData F s → SharedInv F (baseOf F s) s) ∧
+    (∀ base, SharedInv F base s → ∀ t ∈ famTargets F, base t = baseOf F s t) ∧
+    (∀ K, KnobFamily (F ++ [K]) → s.frozen = false → IntData F s → (∀ k ∈ F, KnobSettled k s) →
+      (∃ x, get s.store (knobSrc K) = .ok (.int x)) → (∀ t ∈ leafTargets K, ∃ a, get s.store t = .ok (.int a)) →
+      (register s K).2 = none ∧ (register s K).1.store = s.store ∧
+        SharedAt (F ++ [K]) (baseOf (F ++ [K]) (register s K).1) (register s K).1) :=
+  ⟨IntData.sharedInv, fun _ h => h.base_eq, fun K h1 h2 h3 h4 h5 h6 => by
+    obtain ⟨a, b, _, c⟩ := register_sharedAt (K := K) h1 h2 h3 h4 h5 h6
+    exact ⟨a, b, c⟩⟩
+
+/-- the same as `C01_knobs_sharing_targets` with every hypothesis a Boolean test on the start state (the family is the set
+    of ALL knob tasks of the manager, `knobsOf s`); the tests are not run by the driver -/
+theorem C01_knobs_sharing_targets_decided (sched : Sched) (base : Path → Int) (as : List (Path × Int)) (s : MState)
+    (hfam : knobFamilyB (knobsOf s) = true) (hat : sharedAtB (knobsOf s) base s = true) (hf : s.faultIn = none)
+    (hcalls : as.all (fun a => sharedCallB sched s a.1) = true) :
+    allComplete sched s as ∧ SharedAt (knobsOf s) base (mixedAssignAll sched s as) ∧
+      (∀ t ∈ famTargets (knobsOf s), get (mixedAssignAll sched s as).store t =
+        .ok (.int (base t + famSum t (fun k => lastVal (knobSrc k) (srcI s k) as) (knobsOf s)))) :=
+  sharedAssignAll_decided sched base as s hfam hat hf hcalls
+
+/-- non-vacuity (`Manager.SharedExample`): `#K1: a += 2Δx`, `#K2: a += 3Δy, b += Δy` share `d.a`; `#K3: c += Δz, c += 4Δz`
+    lists `d.c` twice; registered at `x, y, z = 1, 2, 3` on `a, b, c = 10, 20, 30` the bases are `2, 18, 15`.  The
+    hypotheses hold, so after ANY series of int assignments to `d.x`, `d.y`, `d.z`: `a = 2 + 2x + 3y`, `b = 18 + y`,
+    `c = 15 + 5z`; and computed, `d.x := 5`, `d.y := 7` in both orders give `d.a = 33`. -/
+example : KnobFamily SharedExample.F ∧ SharedAt SharedExample.F SharedExample.bases SharedExample.s1 ∧
+    SharedCall id SharedExample.F SharedExample.s1 (SharedExample.d "x") ∧
+    SharedCall id SharedExample.F SharedExample.s1 (SharedExample.d "y") :=
+  ⟨SharedExample.family_F, SharedExample.at_s1, SharedExample.call_x, SharedExample.call_y⟩
+example : get SharedExample.sXY.store (SharedExample.d "a") = .ok (.int (2 + 2 * 5 + 3 * 7)) ∧
+    SharedExample.sXY.store = SharedExample.sYX.store := ⟨rfl, rfl⟩
 
 end Properties.C01
